@@ -193,6 +193,38 @@ for name, d in objects():
         if after != before:
             for (k0, s0), (k1, s1) in zip(before[1], after[1]):
                 if s0 != s1 and k0 != "_atcorenums": fails.append(((name, prog, k0), "write_input altered the caller's object: attribute " + k0)); break
+# an object whose charge was assigned while the atoms were still unknown (the private _charge keeps the value until a
+# getter is called) and that nobody has read before it is handed to dump_one: the outcome must not depend on that
+def early(read_first):
+    shells = [Shell(0, [0, 0, 1], ["c", "c", "c"], np.array([1.0, 0.3]), np.ones((2, 3)) * 0.4), Shell(1, [0], ["c"], np.array([0.8]), np.array([[1.0]]))]
+    e = IOData()
+    e.charge = 3.0
+    e.atnums = [8, 1]
+    e.atcoords = np.array([[0.0, 0, 0], [0, 0, 1.8]])
+    e.title = "t"
+    e.obasis = MolecularBasis(shells, HORTON2_CONVENTIONS, "L2")
+    e.mo = MolecularOrbitals("restricted", 6, 6, occs=np.array([2.0, 1, 1, 0, 0, 0]), occs_aminusb=np.array([0.0, 1, -1, 0, 0, 0]), coeffs=np.eye(6), energies=np.arange(6.0), irreps=["a"] * 6)
+    if read_first:
+        e.charge
+    return e
+for fmt, mod in sorted(FORMAT_MODULES.items()):
+    if not hasattr(mod, "dump_one"): continue
+    outcome = []
+    for read_first in (False, True):
+        cases += 1
+        e = early(read_first)
+        fn = os.path.join(tmp, f"e.{fmt}")
+        with warnings.catch_warnings(record=True) as w:
+            warnings.simplefilter("always")
+            try:
+                dump_one(e, fn, fmt=fmt, allow_changes=True)
+                outcome.append(("ok", open(fn, "rb").read()))
+            except (PrepareDumpError, DumpError) as exc:
+                outcome.append((type(exc).__name__, repr(exc.__cause__)[:120]))
+                if isinstance(exc, PrepareDumpError) and any(issubclass(x.category, PrepareDumpWarning) for x in w):
+                    fails.append((("charge assigned before the atoms, object not read before the dump" if not read_first else "charge assigned before the atoms", fmt, repr(exc.__cause__)[:120]), "a conversion was announced (PrepareDumpWarning) and then refused (PrepareDumpError)"))
+    if outcome[0] != outcome[1] and fmt != "json_qcschema":
+        fails.append(((fmt, outcome[0][0], outcome[1][0]), "the outcome of dump_one depends on whether the object was read before"))
 sig = {}
 for f in fails: sig.setdefault(f[1], f)
 print(json.dumps(dict(cases=cases, nfails=len(fails), kinds={k: repr(v)[:400] for k, v in sig.items()}), default=str))
